@@ -13,6 +13,7 @@ import (
 	"bytes"
 	"context"
 	"fmt"
+	"io"
 	"net"
 	"net/http"
 	"os"
@@ -84,6 +85,8 @@ func (o *realOrigin) down() {
 // SrvRealChild is the entry point of the child process.
 func SrvRealChild(args []string) {
 	backend := args[0]
+	viaCLI := strings.HasPrefix(backend, "cli") // the server is `pmtiles serve` (the real binary), asked over HTTP
+	backend = strings.TrimPrefix(backend, "cli")
 	cacheMB, _ := strconv.Atoi(args[1])
 	ops := strings.Fields(args[2])
 	dir, _ := os.MkdirTemp("", "srvreal")
@@ -101,12 +104,94 @@ func SrvRealChild(args []string) {
 		origin.up()
 		bucketURL = "http://" + origin.addr
 	}
-	srv, err := pmtiles.NewServer(bucketURL, "", discardLogger, cacheMB, "http://public")
-	if err != nil {
-		fmt.Println("newserver-failed")
-		return
+	var get func(path string) (int, []byte)
+	if viaCLI {
+		bin := os.Getenv("VERIF_CLI")
+		if bin == "" {
+			fmt.Println("no-cli-binary")
+			return
+		}
+		pl, err := net.Listen("tcp", "127.0.0.1:0")
+		if err != nil {
+			fmt.Println("listen-failed")
+			return
+		}
+		port := pl.Addr().(*net.TCPAddr).Port
+		pl.Close()
+		cargs := []string{"serve", dir}
+		if backend == "http" {
+			cargs = []string{"serve", ".", "--bucket=" + bucketURL}
+		}
+		cargs = append(cargs, "--interface=127.0.0.1", fmt.Sprintf("--port=%d", port), fmt.Sprintf("--cache-size=%d", cacheMB), "--public-url=http://public")
+		cmd := exec.Command(bin, cargs...)
+		var cerr bytes.Buffer
+		cmd.Stderr = &cerr
+		if err := cmd.Start(); err != nil {
+			fmt.Println("listen-failed")
+			return
+		}
+		exited := make(chan struct{})
+		go func() { cmd.Wait(); close(exited) }()
+		defer func() {
+			cmd.Process.Kill()
+			<-exited
+		}()
+		base := fmt.Sprintf("http://127.0.0.1:%d", port)
+		ready := false
+		for i := 0; i < 200 && !ready; i++ {
+			if c, err := net.DialTimeout("tcp", fmt.Sprintf("127.0.0.1:%d", port), 100*time.Millisecond); err == nil {
+				c.Close()
+				ready = true
+				break
+			}
+			select {
+			case <-exited:
+				i = 200
+			case <-time.After(25 * time.Millisecond):
+			}
+		}
+		if !ready {
+			fmt.Println("listen-failed") // the port was taken in between, or the binary could not start: nothing observed
+			return
+		}
+		// no transparent decompression: the body is compared as the server sent it, whatever Content-Encoding says
+		client := &http.Client{Timeout: 8 * time.Second, Transport: &http.Transport{DisableCompression: true}}
+		get = func(path string) (int, []byte) {
+			select {
+			case <-exited:
+				// the server process died: a crash is an observation
+				fmt.Fprintln(os.Stderr, cerr.String())
+				fmt.Fprintln(os.Stderr, "fatal error: the pmtiles serve process exited")
+				os.Exit(2)
+			default:
+			}
+			resp, err := client.Get(base + path)
+			if err != nil {
+				select {
+				case <-exited:
+					fmt.Fprintln(os.Stderr, cerr.String())
+					fmt.Fprintln(os.Stderr, "fatal error: the pmtiles serve process exited")
+					os.Exit(2)
+				default:
+				}
+				return -2, nil
+			}
+			defer resp.Body.Close()
+			b, _ := io.ReadAll(resp.Body)
+			return resp.StatusCode, b
+		}
+	} else {
+		srv, err := pmtiles.NewServer(bucketURL, "", discardLogger, cacheMB, "http://public")
+		if err != nil {
+			fmt.Println("newserver-failed")
+			return
+		}
+		srv.Start()
+		get = func(path string) (int, []byte) {
+			st, _, body := srv.Get(context.Background(), path)
+			return st, body
+		}
 	}
-	srv.Start()
 	var out []string
 	nput := 0
 	stuck := 0
@@ -177,7 +262,10 @@ func SrvRealChild(args []string) {
 			}
 			done := make(chan string, 1)
 			go func() {
-				st, _, body := srv.Get(context.Background(), path)
+				st, body := get(path)
+				if st == -2 {
+					return // counted as never completed by the timeout below
+				}
 				done <- fmt.Sprintf("%d:%s", st, hexs(body))
 			}()
 			select {
@@ -245,6 +333,9 @@ func judgeReal(ops []string, goOut string, faultsAllowed bool) string {
 	}
 	if strings.HasPrefix(goOut, "hang:") {
 		return "the script did not finish: " + goOut
+	}
+	if goOut == "no-cli-binary" {
+		return "the command-line binary was not built"
 	}
 	if goOut == "origin-restart-failed" || goOut == "listen-failed" {
 		return "" // the loopback origin could not (re)bind its port: nothing was observed
